@@ -101,6 +101,26 @@ func runC02(ctx *core.Ctx) {
 			}
 		})
 		ctx.Check(okList && okMap, "N1", "testscript.Setenv#both", setenv.Pos(), "Setenv appends key+\"=\"+value to the list (%v) and stores value under envvarname(key) in the map (%v)", okList, okMap)
+		// ... both on every path: a Setenv that returns having done only one of them leaves list and map apart
+		{
+			isListStore := func(i ssa.Instruction) bool {
+				st, ok := i.(*ssa.Store)
+				return ok && isFieldAddrOf("env")(st.Addr)
+			}
+			isMapStore := func(i ssa.Instruction) bool {
+				mu, ok := i.(*ssa.MapUpdate)
+				return ok && isFieldLoad("envMap")(mu.Map)
+			}
+			uncond := true
+			for _, r := range g.Returns() {
+				for _, pred := range []func(ssa.Instruction) bool{isListStore, isMapStore} {
+					if hit, _ := g.ReachableWithout(ssax.Point{}, func(i ssa.Instruction) bool { return i == ssa.Instruction(r) }, pred); hit != nil {
+						uncond = false
+					}
+				}
+			}
+			ctx.Check(uncond, "N1", "testscript.Setenv#unconditional", setenv.Pos(), "every return of Setenv lies behind both the list append and the map update (no value, such as the empty string, is special)")
+		}
 	}
 	{
 		// setup rebuilds the map from the list
@@ -804,6 +824,49 @@ func c02More(ctx *core.Ctx) {
 	}
 	if n == 0 {
 		ctx.Bad("N10", "testscript.runLine#tokenizer-input", runLine.Pos(), "runLine does not call the tokenizer")
+	}
+	// ... and what run hands to runLine is cut out of the script text, not rewritten: on the way from the
+	// script to the line there are only re-slices, merges and strings.Cut (any other strings/bytes/regexp
+	// call - ReplaceAll, TrimSpace, Map - changes bytes that the tokenizer must see)
+	if run := p.Func("testscript", "(*TestScript).run"); run != nil {
+		k := 0
+		for _, c := range graph(p, run).Calls(ssax.FuncName(runLine)) {
+			k++
+			seen := map[ssa.Value]bool{}
+			culprit := ""
+			var walk func(v ssa.Value, depth int)
+			walk = func(v ssa.Value, depth int) {
+				if seen[v] || depth > 12 || culprit != "" {
+					return
+				}
+				seen[v] = true
+				switch x := ssax.Strip(v).(type) {
+				case *ssa.Slice:
+					walk(x.X, depth+1)
+				case *ssa.Phi:
+					for _, e := range x.Edges {
+						walk(e, depth+1)
+					}
+				case *ssa.Extract:
+					walk(x.Tuple, depth+1)
+				case *ssa.UnOp:
+					if r := ssax.ResolveLoad(x); r != nil && r != ssa.Value(x) {
+						walk(r, depth+1)
+					}
+				case *ssa.Call:
+					nm := ssax.CalleeName(&x.Call)
+					if nm == "strings.Cut" {
+						walk(x.Call.Args[0], depth+1)
+						return
+					}
+					if strings.HasPrefix(nm, "strings.") || strings.HasPrefix(nm, "bytes.") || strings.HasPrefix(nm, "regexp.") || strings.HasPrefix(nm, "(*regexp.") || strings.HasPrefix(nm, "(*strings.") {
+						culprit = nm
+					}
+				}
+			}
+			walk(c.Call.Args[1], 0)
+			ctx.Check(culprit == "", "N10", "testscript.run#line-as-written"+itoa(k), c.Pos(), "the line given to runLine is a piece of the script text as written (no rewriting call on the way%s)", map[bool]string{true: "", false: "; found " + culprit}[culprit == ""])
+		}
 	}
 	// the word accumulator: the string that is appended to the result list
 	g := graph(p, parse)
